@@ -139,10 +139,28 @@ def inv(t):
     return t._new(r.copy())
 
 
+def _numeric_eigh(a):
+    """Concrete argument: float64 LAPACK through numpy (validation and
+    value-agnostic trace extraction only; never part of a symbolic verdict)."""
+    f = np.array([[float(v) for v in row] for row in a.tolist()], dtype=np.float64)
+    d, q = np.linalg.eigh(f)
+    dd = np.empty(d.shape, dtype=object)
+    qq = np.empty(q.shape, dtype=object)
+    for i in range(d.shape[0]):
+        dd[i] = Fraction(float(d[i]))
+        for j in range(q.shape[1]):
+            qq[i, j] = Fraction(float(q[i, j]))
+    return dd, qq
+
+
 def eigh(t, UPLO='L'):  # noqa: N803
     _check_square(t, 'eigh')
     a = t.a
     n = a.shape[0]
+    if _is_concrete(a):
+        d, q = _numeric_eigh(a)
+        LOG.append({'fn': 'eigh', 'arg': a.copy(), 'out': (d, q), 'how': 'numeric'})
+        return t._new(d), t._new(q)
     for (m, (d, q)) in MEMO['eigh']:
         if _congruent(a, m):
             LOG.append({'fn': 'eigh', 'arg': a.copy(), 'out': (d, q), 'how': 'congruent'})
